@@ -500,7 +500,7 @@ def check (c):
                     observe.solve (mv)
                     d = observe.cmp_fields (o0 ['field'], observe.current_field (mv, unit = observe.min_seg (m0)))
                     if d is None or d > 0.05:
-                        viol.append (dict (monitor = 'approximate-cut', key = 'approximate-cut-currents', msg = 'wire %d cut into two objects whose facing ends are 0.75 matching tolerances apart: currents differ by %r of the largest' % (wi + 1, d)))
+                        viol.append (dict (monitor = 'approximate-cut', key = 'approximate-cut-currents', msg = 'wire %d cut into two objects whose facing ends are 0.75 matching tolerances apart: currents differ by %r of the largest' % (wi + 1, d), measured = (np.inf if d is None else float (d)), allowed = 0.05))
             except gen.Locate_Error:
                 pass
     # ---- mirror symmetry
